@@ -14,7 +14,7 @@ def run(res, ctx):
     if tier == "quick":
         runner.run_harness(res, SRC, "asan", tier, args=args, deadline=480, timeout=1200, shards=40, **KW)
     else:
-        runner.run_harness(res, SRC, "asan", tier, args=args, deadline=2400, timeout=3600, shards=64, **KW)
+        runner.run_harness(res, SRC, "asan", tier, args=args, deadline=3300, timeout=4500, shards=64, **KW)
 
 
 def replay(res, path, ctx):
